@@ -72,7 +72,7 @@ Example C09_insert_dirty_nonvacuous :
   let '(d1, ok) := phase1_branch ex_cfg (1, 1)%N [SInsert ex_tn [([VInt 7], [VInt 70; VInt 0])]] ex_d0 in
   let d1' := with_tabs d1 (apply_foreign [FSet ex_tn [VInt 7] [VInt 71; VInt 0]] (d_tabs d1)) in
   let r := rollback_branch ex_cfg None d1' (1, 1)%N in
-  ok = true /\ r_db r = d1' /\ r_out r = None.
+  ok = true /\ r_db r = d1' /\ r_out r = status_plain_error.
 Proof. vm_compute. repeat split; reflexivity. Qed.
 
 Example C09_update_cases_nonvacuous :
@@ -86,7 +86,7 @@ Example C09_update_cases_nonvacuous :
   let dC := with_tabs d1 (apply_foreign [FSet ex_tn [VInt 1] [VInt 10; VInt 5]; FSet ex_tn [VInt 2] [VInt 20; VInt 6]] (d_tabs d1)) in
   r_out (rollback_branch ex_cfg None dA (1, 1)%N) = status_ok /\
   lookup [VInt 2] (db_get ex_tn (d_tabs (r_db (rollback_branch ex_cfg None dA (1, 1)%N)))) = Some [VInt 20; VInt 99] /\
-  r_out (rollback_branch ex_cfg None dB (1, 1)%N) = None /\ r_db (rollback_branch ex_cfg None dB (1, 1)%N) = dB /\
+  r_out (rollback_branch ex_cfg None dB (1, 1)%N) = status_plain_error /\ r_db (rollback_branch ex_cfg None dB (1, 1)%N) = dB /\
   r_out (rollback_branch ex_cfg None dC (1, 1)%N) = status_ok /\
   d_tabs (r_db (rollback_branch ex_cfg None dC (1, 1)%N)) = d_tabs dC.
 Proof. vm_compute. repeat split; reflexivity. Qed.
